@@ -34,7 +34,7 @@ impl Flags {
     }
 }
 
-pub type Env = Vec<Option<(u8, u8)>>;
+pub type Env = Vec<Option<(u16, u16)>>;
 pub type State = (usize, Env);
 
 pub struct Lang<'a> {
@@ -61,6 +61,7 @@ fn groups_in(n: &Node, out: &mut Vec<u32>) {
 
 impl<'a> Lang<'a> {
     pub fn new(root: &Node, s: &'a [char], f: Flags) -> Lang<'a> {
+        assert!(s.len() < 65_536, "capture positions are stored as u16");
         let ng = root.n_groups() as usize;
         let refs = root.backrefs();
         let mut tracked = vec![false; ng + 1];
@@ -173,7 +174,7 @@ impl<'a> Lang<'a> {
                 let k = *k as usize;
                 if k != 0 && k < self.tracked.len() && self.tracked[k] {
                     for (q, env) in r.iter_mut() {
-                        env[k] = Some((p as u8, *q as u8));
+                        env[k] = Some((p as u16, *q as u16));
                     }
                     r.sort();
                     r.dedup();
